@@ -230,7 +230,151 @@ func c14Admin(c *vlib.Ctx) {
 		}
 		a.Close()
 	}
+	c14AdminManaged(c)
 	c14MCP(c)
+}
+
+const c14ManagedCfg = `ingress { listen 127.0.0.1:0 }
+pull_api { listen 127.0.0.2:0
+ auth token raw:tok }
+admin_api { listen 127.0.0.3:0 }
+/r0 { application "app1"
+ endpoint_name "ep0"
+ queue { backend %[1]s }
+ pull { path /p0 } }
+/r1 { application "app1"
+ endpoint_name "ep1"
+ queue { backend %[1]s }
+ pull { path /p1 } }
+/r2 { queue { backend %[1]s }
+ pull { path /p2 } }
+`
+
+// c14AdminManaged: by-filter mutations addressed through the management model:
+// endpoint-scoped paths (/applications/{app}/endpoints/{ep}/messages/*_by_filter,
+// scope taken from the URL only) and application/endpoint_name selectors on the
+// global paths. The scope is one route; messages of every other route must stay
+// untouched and uncounted. Requests the API refuses must change nothing.
+func c14AdminManaged(c *vlib.Ctx) {
+	dir := c.Scratch()
+	n := c.N(8, 160)
+	routeOf := map[string]string{"ep0": "/r0", "ep1": "/r1"}
+	for ci := 0; ci < n; ci++ {
+		r := vlib.Derive(c.Seed, "C14managed", ci)
+		be := []string{"memory", "sqlite"}[ci%2]
+		a, err := l2.Start(dir, fmt.Sprintf(c14ManagedCfg, be), nil, nil)
+		if err != nil {
+			c.Inconclusive("C14 managed config: " + err.Error())
+			return
+		}
+		c14Populate(r, a.Store, r.Range(24, 60))
+		for k := 0; k < 24; k++ {
+			before := snapStore(a.Store)
+			ids := before.IDs()
+			op := vlib.Pick(r, []string{"cancel", "requeue", "resume"})
+			kind := map[string]storecheck.Kind{"cancel": storecheck.KCancelF, "requeue": storecheck.KRequeueF, "resume": storecheck.KResumeF}[op]
+			ep := vlib.Pick(r, []string{"ep0", "ep1"})
+			filter := queue.MessageManageFilterRequest{Route: routeOf[ep], Limit: vlib.Pick(r, []int{0, 1, 2, 5, 100, 1000}), PreviewOnly: r.Chance(0.3)}
+			body := map[string]any{}
+			if filter.Limit != 0 {
+				body["limit"] = filter.Limit
+			}
+			if r.Chance(0.4) {
+				filter.State = vlib.Pick(r, vlib.AllStates)
+				body["state"] = string(filter.State)
+			}
+			if r.Chance(0.4) && len(ids) > 0 {
+				t := time.Unix(0, before[vlib.Pick(r, ids)].ReceivedAt).UTC()
+				filter.Before = t
+				body["before"] = t.Format(time.RFC3339Nano)
+			}
+			if filter.PreviewOnly {
+				body["preview_only"] = true
+			}
+			form := vlib.Pick(r, []string{"scoped_path", "scoped_path", "selectors", "scoped_path_with_hint", "global_route_managed"})
+			target := "/messages/" + op + "_by_filter"
+			expectRefusal := false
+			switch form {
+			case "scoped_path":
+				target = "/applications/app1/endpoints/" + ep + target
+			case "selectors":
+				body["application"], body["endpoint_name"] = "app1", ep
+			case "scoped_path_with_hint":
+				target = "/applications/app1/endpoints/" + ep + target
+				body["route"] = vlib.Pick(r, []string{"/r2", routeOf[ep], "/r1"})
+				expectRefusal = true
+			case "global_route_managed":
+				body["route"] = routeOf[ep]
+				expectRefusal = true
+			}
+			raw, _ := json.Marshal(body)
+			req := l2.JSONReq("POST", a.Compiled.AdminAPI.Prefix+target, raw, "")
+			req.Header.Set("X-Hookaido-Audit-Reason", "verif")
+			resp := l2.Do(a.Admin, req)
+			after := snapStore(a.Store)
+			add, rem, chg := vlib.Diff(before, after)
+			c.Count("evaluations", 1)
+			c.Count("admin_managed_mutation_calls", 1)
+			c.Distinct("nontrivial", fmt.Sprintf("admin_managed:%s:%s:%s:%d", be, kind, form, resp.Status))
+			wit := map[string]any{"backend": be, "target": target, "body": string(raw), "status": resp.Status, "response": string(resp.Body[:minInt(200, len(resp.Body))])}
+			if resp.Status != 200 {
+				if len(add)+len(rem)+len(chg) > 0 {
+					c.Violation(vlib.Signature{"class": "rejected_request_changed_queue", "bad": form, "op": string(kind)}, fmt.Sprintf("%s answered %d but changed the queue", target, resp.Status), wit)
+				}
+				if !expectRefusal && !(resp.Status == 400 && filter.State != "" && !stateAllowed(kind, filter.State)) {
+					c.Violation(vlib.Signature{"class": "valid_mutation_refused", "op": string(kind), "status": fmt.Sprint(resp.Status), "form": form}, fmt.Sprintf("%s answered %d: %s", target, resp.Status, string(resp.Body)), wit)
+				}
+				continue
+			}
+			// accepted (also when the documentation says it is refused): the scope is the endpoint's route
+			if form == "global_route_managed" || form == "scoped_path_with_hint" {
+				if r2, ok := body["route"].(string); ok {
+					filter.Route = r2
+					if form == "scoped_path_with_hint" {
+						filter.Route = routeOf[ep] // the URL is authoritative
+					}
+				}
+			}
+			sel := storecheck.SelectByFilter(before, filter, kind)
+			var out struct {
+				Matched                     *int `json:"matched"`
+				Canceled, Requeued, Resumed int
+			}
+			_ = json.Unmarshal(resp.Body, &out)
+			count := out.Canceled + out.Requeued + out.Resumed
+			if out.Matched == nil || *out.Matched != len(sel) {
+				c.Violation(vlib.Signature{"class": "matched_count", "backend": be, "op": string(kind), "form": form}, fmt.Sprintf("%s matched=%s, independent selection within %s has %d", target, ptrInt(out.Matched), filter.Route, len(sel)), wit)
+			}
+			wantChanged := sel
+			if filter.PreviewOnly {
+				wantChanged = nil
+			}
+			if count != len(wantChanged) {
+				c.Violation(vlib.Signature{"class": "changed_count", "backend": be, "op": string(kind), "form": form}, fmt.Sprintf("%s reported %d changed, independent selection within %s has %d", target, count, filter.Route, len(wantChanged)), wit)
+			}
+			gotChanged := append(append([]string{}, chg...), rem...)
+			sort.Strings(gotChanged)
+			w := append([]string{}, wantChanged...)
+			sort.Strings(w)
+			if strings.Join(gotChanged, ",") != strings.Join(w, ",") || len(add) > 0 {
+				var foreign []string
+				for _, id := range gotChanged {
+					if before[id].Route != filter.Route {
+						foreign = append(foreign, id+"@"+before[id].Route)
+					}
+				}
+				c.Violation(vlib.Signature{"class": "changed_set_differs", "backend": be, "op": string(kind), "form": form}, fmt.Sprintf("%s changed %v, independent selection within %s says %v (messages of other routes touched: %v)", target, gotChanged, filter.Route, w, foreign), wit)
+			}
+		}
+		a.Close()
+	}
+}
+
+func ptrInt(p *int) string {
+	if p == nil {
+		return "absent"
+	}
+	return fmt.Sprint(*p)
 }
 
 func stateAllowed(k storecheck.Kind, s queue.State) bool {
